@@ -36,8 +36,8 @@ prop("C19", [
     S(REASM, "^TestC19Regress$", kind="plain"),
     S(REASM, "^TestC19$", q=4000, t=40000, shards=16),
 ], REASM_ASSUME + ["time is real: expiry is decided three-valued from harness clock brackets; only definite answers are asserted",
-                   "no push is made after Close (the property does not say what it does)"],
-   nontrivial_classes=["history-with-timeout-only-delivery", "history-with-call-after-close",
+                   "what a push made after Close does itself is not asserted (only that later Maintain/Close fail and deliver nothing)"],
+   nontrivial_classes=["history-with-timeout-only-delivery", "history-with-call-after-close", "history-with-push-after-close",
                        "decision-definitely-expired", "decision-definitely-live"])
 
 PARSE = "props/parse"
@@ -97,6 +97,7 @@ prop("C07", [
 prop("C13", [
     S(RULES, "^TestC13Regress$", kind="plain"),
     S(RULES, "^TestC13HeaderWords$", kind="plain", timeout_t=3000),
+    S(RULES, "^TestC13FieldCount$", kind="plain"),
     S(RULES, "^TestC13$", q=40000, t=1000000, shards=16, timeout_t=3000),
     S(RULES, "", kind="fuzz", fuzz="FuzzToCommandLine", fuzztime_t=100),
     S(RULES, "", kind="fuzz", fuzz="FuzzFlagsParse", fuzztime_t=100),
@@ -132,7 +133,7 @@ prop("C16", [
     S(CLIENT, "^TestC16$", q=20000, t=500000, shards=16),
 ], ["struct audit_status field offsets are written from the kernel header by hand; mask/feature bits and message types come from the header snapshot",
     "fields only partly covered by an odd-length buffer are not asserted"],
-   nontrivial_classes=["set-nonzero", "get", "wire-too-short", "wire-decoded"] + ["set-" + s for s in
+   nontrivial_classes=["set-nonzero", "set-after-unacknowledged-set", "get", "wire-too-short", "wire-decoded"] + ["set-" + s for s in
                        ["SetPID", "SetRateLimit", "SetBacklogLimit", "SetEnabled", "SetImmutable", "SetFailure", "SetBacklogWaitTime"]])
 
 prop("C17", [
@@ -156,7 +157,7 @@ prop("C18", [
 ], ["needs AF_NETLINK sockets (the check is undecided without them)",
     "only side-effect-free requests: NETLINK_ROUTE message types above RTM_MAX with the REQUEST flag, which the kernel refuses with EOPNOTSUPP and echoes",
     "a zero-length datagram cannot be sent between netlink sockets (ENODATA); it is covered at parser level only"],
-   nontrivial_classes=["send-echoed", "foreign-header-sized-refused", "foreign-short-refused", "parser-short", "parser-ok", "concurrent-batch", "concurrent-batch-with-failing-sends"])
+   nontrivial_classes=["send-echoed", "foreign-header-sized-refused", "foreign-short-refused", "parser-short", "parser-ok", "concurrent-batch", "concurrent-batch-with-failing-sends", "client-port-id-differs-from-process-id"])
 
 COAL = "props/coalesce"
 
@@ -192,8 +193,10 @@ prop("C11", [
     S(REASM, "^TestC11$", q=3000, t=50000, shards=16),
     S(REASM, "^TestC11Exhaustive$", kind="plain", q=20000, t=2000000, shards=16, timeout_t=3300),
     S(REASM, "^TestC11Stress$", kind="plain", race=True, q=40, t=3000, timeout_t=3000),
-    S(REASM, "^TestC11Stress$", kind="plain", q=80, t=6000, timeout_t=3000),
+    S(REASM, "^TestC11Stress$", kind="plain", q=400, t=20000, timeout_t=3000),
+    S(REASM, "^TestC11CloseVsPush$", kind="plain", q=6000, t=400000, timeout_t=3000),
+    S(REASM, "^TestC11CloseVsPush$", kind="plain", race=True, q=1500, t=60000, timeout_t=3000),
 ], ["interleavings are at the granularity of the library's atomic steps (the yield points of the verif hook); races inside a step are only sampled by the race-detector stress",
     "a deadlock is declared only when every worker has been released from the scheduler and nobody finishes within 10 s",
     "'Close invoked' = the moment the first Close call of any kind (worker or re-entrant) is entered; exact under the controlled scheduler"],
-   nontrivial_classes=["schedule-with-preemption-and-delivery", "program-enumerated-exhaustively", "stress-round"])
+   nontrivial_classes=["schedule-with-preemption-and-delivery", "program-enumerated-exhaustively", "stress-round", "close-vs-push-attempt"])
